@@ -76,8 +76,12 @@ def h_interp(H):
         it.ctx.oblige("interp.frame", A.forall([r, t], lambda: z3.Implies(z3.And(r >= 0, r < nc, t >= 0, t < ns, r != i), data.read((r, t)) == d0((r, t)))), "post",
                       "all channels other than the one being repaired are bit-identical", assume=False)
         it.ctx.oblige("interp.repairs_a_bad_channel", z3.And(i >= 0, i < nc, isbad(i)), "post")
-        if "w_raw" in snaps and "w_cut" in snaps:
-            it.ctx.oblige("interp.weights_cut", A.forall([c], lambda: z3.Implies(z3.And(c >= 0, c < nc), snaps["w_cut"]((c,)) == z3.If(z3.Or(isbad(c), snaps["w_raw"]((c,)) < term(0.005)), z3.RealVal(0), snaps["w_raw"]((c,))))), "post",
+        exps = [e for e in getattr(it.ctx, "opaque_log", []) if e["name"] == "exp"]
+        it.ctx.oblige("interp.one_decay", z3.BoolVal(len(exps) == 1 and "w_cut" in snaps), "post", "one distance-decay exp(...) per repaired channel, over all channels")
+        if len(exps) == 1 and "w_cut" in snaps:
+            E = exps[0]["out"]
+            it.ctx.oblige("interp.decay_over_all_channels", A.T(exps[0]["shape"][0]) == nc, "post")
+            it.ctx.oblige("interp.weights_cut", A.forall([c], lambda: z3.Implies(z3.And(c >= 0, c < nc), snaps["w_cut"]((c,)) == z3.If(z3.Or(isbad(c), E((c,)) < term(0.005)), z3.RealVal(0), E((c,))))), "post",
                           "weights are zeroed on dead/noisy channels and below 0.005 - and nowhere else: good and outside-brain channels keep their distance-decay weight")
         imult_w = [q for q in it.ctx.where_log if q["ndim"] == 1][-1]
         if zero_path:
@@ -93,9 +97,24 @@ def h_interp(H):
                 it.ctx.oblige("interp.sources_not_bad", A.forall([c], lambda: z3.Implies(z3.And(c >= 0, c < m), z3.And(z3.Not(isbad(src(c))), src(c) != i, wfinal.read((src(c),)) > 0))), "post",
                               "every source is a good or outside-brain channel with a positive weight", assume=False)
                 it.ctx.oblige("interp.product_operands", z3.And(A.T(mm[0]["a_shape"][0]) == m, A.T(mm[0]["b_shape"][0]) == m, A.T(mm[0]["b_shape"][1]) == ns,
-                              A.forall([c, t], lambda: z3.Implies(z3.And(c >= 0, c < m, t >= 0, t < ns), z3.And(mm[0]["a"]((c,)) == wfinal.read((src(c),)), mm[0]["b"]((c, t)) == d0((src(c), t)))))), "post",
-                              "the replacement is the weighted combination of the source channels' data", assume=False)
-                it.ctx.oblige("interp.row_replaced", A.forall([t], lambda: z3.Implies(z3.And(t >= 0, t < ns), data.read((i, t)) == mm[0]["out"]((t,)))), "post", assume=False)
+                              A.forall([c, t], lambda: z3.Implies(z3.And(c >= 0, c < m, t >= 0, t < ns), mm[0]["b"]((c, t)) == d0((src(c), t))))), "post",
+                              "the replacement is a combination of the source channels' data", assume=False)
+                # convexity: the coefficients are v(c) / sum(v) with v(c) = weight of source c > 0   (sum of v / sum(v) = 1: arithmetic, A-NP-SPEC sum)
+                sums = [e for e in getattr(it.ctx, "reduce_log", []) if e["name"] == "sum"]
+                okc = len(sums) >= 2 and len(sums[-1]["in_shape"]) == 1
+                it.ctx.oblige("interp.convex.normalised_after_cut", z3.BoolVal(okc), "post", "the coefficients are normalised by a sum taken after the > 0.005 cut")
+                if okc:
+                    Sx = sums[-1]
+                    Sv = Sx["out"]()
+                    it.ctx.oblige("interp.convex.sum_over_sources", z3.And(A.T(Sx["in_shape"][0]) == m, A.forall([c], lambda: z3.Implies(z3.And(c >= 0, c < m), Sx["input"]((c,)) == wfinal.read((src(c),))))), "post",
+                                  "the normalising sum runs over exactly the sources' weights")
+                    # A-NP-SPEC (sum), stated for this one sum: a sum of non-negative terms is at least its first term
+                    cq = z3.Int(fresh_name("cq"))
+                    it.ctx.assume(z3.Implies(z3.And(m >= 1, z3.ForAll([cq], z3.Implies(z3.And(cq >= 0, cq < m), Sx["input"]((cq,)) >= 0))), Sv >= Sx["input"]((z3.IntVal(0),))))
+                    it.ctx.oblige("interp.convex.sources_positive", A.forall([c], lambda: z3.Implies(z3.And(c >= 0, c < m), wfinal.read((src(c),)) > 0)), "post")
+                    it.ctx.oblige("interp.convex.sum_positive", Sv > 0, "post", "the normalising sum is positive (at least one source, all source weights positive)")
+                    it.ctx.oblige("interp.convex.coefficients", A.forall([c], lambda: z3.Implies(z3.And(c >= 0, c < m), z3.And(mm[0]["a"]((c,)) > 0, mm[0]["a"]((c,)) * Sv == wfinal.read((src(c),))))), "post",
+                                  "each coefficient is positive and equals weight / sum of the sources' weights: the coefficients sum to one", assume=False)
     S.explore(body)
 
 
@@ -129,9 +148,13 @@ def native_interp(rng, version, ncases):
                     bad.append(("zero fall-back", case, int(c)))
                 continue
             srcs = np.flatnonzero(w / w.sum() > 0.005)
-            lo, hi = data[srcs].min(axis=0), data[srcs].max(axis=0)
-            if not (np.all(out[c] >= lo - 1e-9) and np.all(out[c] <= hi + 1e-9)):
-                short.append((case, int(c), float((out[c] / data[srcs].mean(axis=0)).mean())))
+            want = (w[srcs] / w[srcs].sum()) @ data[srcs]
+            if not np.allclose(out[c], want, rtol=1e-9, atol=1e-12):
+                ratio = out[c] / want
+                if np.ptp(ratio) < 1e-9 and 0.5 < ratio.mean() < 1:
+                    short.append((case, int(c), float(ratio.mean())))
+                else:
+                    bad.append(("not the convex combination of its good / outside-brain neighbours", case, int(c), float(np.abs(out[c] - want).max())))
     return bad, short
 
 
@@ -145,36 +168,50 @@ def _synth(rng, nc=384, ns=9000, fs=30000.0):
     return raw
 
 
-def native_detect(rng, ncases):
-    bad = []
-    for case in range(ncases):
+def native_detect(rng, nrand):
+    """faults over the whole probe: both ends explicitly (1..5 channels from an end is where a trend filter is weakest), random positions, top blocks"""
+    bad, first = [], []
+    plan = [("dead", c) for c in (0, 1, 3, 5, 378, 380, 382, 383)] + [("noisy", c) for c in (0, 2, 381, 383)]
+    plan += [("dead", int(c)) for c in rng.integers(6, 378, nrand)] + [("noisy", int(c)) for c in rng.integers(6, 378, nrand)]
+    plan += [("top", int(k)) for k in rng.integers(8, 41, nrand)]
+    plan += [("top_gap", int(k)) for k in rng.integers(10, 41, max(1, nrand // 2))]
+    for kind, c in plan:
         raw = _synth(rng)
-        kind = ["dead", "noisy", "top"][case % 3]
         want = np.zeros(384)
         if kind == "dead":
-            c = int(rng.integers(6, 378))
             raw[c] = rng.standard_normal(raw.shape[1]) * 1e-7
             want[c] = 1
         elif kind == "noisy":
-            c = int(rng.integers(6, 378))
             raw[c] += rng.standard_normal(raw.shape[1]) * 300e-6
             want[c] = 2
         else:
-            k = int(rng.integers(8, 41))
-            raw[-k:] = rng.standard_normal((k, raw.shape[1])) * 5e-6
-            want[-k:] = 3
+            raw[-c:] = rng.standard_normal((c, raw.shape[1])) * 5e-6
+            want[-c:] = 3
+            if kind == "top_gap":
+                # a second low-coherence block lower down: not contiguous with the top, must not become outside-brain (nor hide the top block)
+                lo, wd = int(rng.integers(60, 300)), int(rng.integers(8, 20))
+                raw[lo:lo + wd] = rng.standard_normal((wd, raw.shape[1])) * 5e-6
         labels, _ = V.detect_bad_channels(raw, 30000.0)
-        if kind == "top":
-            ok = np.all(labels[-k + 2:] == 3) and np.all(labels[:-k - 2] == 0)
+        if kind == "top_gap":
+            ok = np.all(labels[-c + 2:] == 3) and not np.any(labels[:-c - 2] == 3)
+        elif kind == "top":
+            ok = np.all(labels[-c + 2:] == 3) and np.all(labels[:-c - 2] == 0)
+        elif kind == "dead" and c == 383:
+            # a silent last channel is also a top block of one channel: dead or outside-brain are both accepted
+            ok = labels[383] in (1, 3) and np.all(labels[:383] == 0)
         else:
             ok = np.array_equal(labels, want)
         if not ok:
-            bad.append((kind, case, np.flatnonzero(labels != want)[:6].tolist()))
-    return bad
+            rec = (kind, c, [(int(i), int(labels[i])) for i in np.flatnonzero(labels != want)[:6]])
+            if kind == "dead" and c == 0 and np.all(labels == 0):
+                first.append(rec)
+            else:
+                bad.append(rec)
+    return bad, first
 
 
 @bounded(PROPERTY, "native_repair_and_detection", bound="interpolate_bad_channels on NP1 / NP2 / NPultra headers, 20 random label vectors each (thorough 200) incl. clusters, probe ends and top blocks 0..40: frame, zero fall-back, range of the sources; "
-         "detect_bad_channels on a coherent AP-band background with one silent / one noisy channel at random positions / a silent top block of 8..40 (12 cases, thorough 90); per-file mode with a stubbed detector",
+         "detect_bad_channels on a coherent AP-band background with one silent / one noisy channel at both probe ends (0, 1, 3, 5, 378, 380, 382, 383 / 0, 2, 381, 383) and random positions, a silent top block of 8..40 (18 cases, thorough 102); per-file mode with a stubbed detector",
          clause="convex combination stays within the sources' range; injected faults are labelled; labels from a file are the per-channel mode")
 def b_native(B):
     rng = np.random.default_rng(B.seed)
@@ -183,8 +220,10 @@ def b_native(B):
         B.case(("interp", str(version)), not bad, detail=bad[:5])
         if short:
             B.case(("interp_convex", str(version)), False, detail={"replacement_over_mean_of_sources": short[:3]}, inputs={"kind": "weights_sum_below_one", "version": str(version)})
-    bad = native_detect(rng, 12 if B.tier == "quick" else 90)
+    bad, first = native_detect(rng, 2 if B.tier == "quick" else 30)
     B.case("detection", not bad, detail=bad[:5])
+    if first:
+        B.case("detection_dead_first_channel", False, detail=first[:2], inputs={"kind": "dead_channel_0_not_labelled"})
     # per-file labels are the per-channel mode over the batches
     import unittest.mock as um
     seq = iter([np.array([0, 1, 2, 3]), np.array([0, 1, 0, 3]), np.array([1, 1, 2, 0]), np.array([0, 0, 2, 3]), np.array([0, 1, 2, 3])] * 2)
@@ -198,3 +237,59 @@ def b_native(B):
         with um.patch.object(V.spikeglx, "Reader", SR):
             flags = V.detect_bad_channels_cbin(SR(), n_batches=10)
     B.case("cbin_mode", np.array_equal(np.ravel(flags), [0, 1, 2, 3]), detail=f"mode over batches gave {np.ravel(flags).tolist()}")
+
+
+# ----------------------------------------------------------------------------- detect_bad_channels: the recommendation tail
+@harness(PROPERTY, "detect_recommendation", functions=["ibldsp.voltage:detect_bad_channels (statements from 'ichannels = np.zeros(nc)' to the return)"],
+         clause="labels follow the feature thresholds with precedence noisy (2) over dead (1) over outside-brain (3); outside-brain only for channels of the low-coherence set that reaches the last channel")
+def h_detect_tail(H):
+    S = H.session("detect_tail")
+    FD = V.detect_bad_channels
+
+    def body(it):
+        nc = z3.Int("nc")
+        it.ctx.assume(nc >= 1)
+        hf = A.fresh_array("xcor_hf", "float64", (nc,))
+        lf = A.fresh_array("xcor_lf", "float64", (nc,))
+        psd = A.fresh_array("psd_hf", "float64", (nc,))
+        thr = z3.Real("psd_hf_threshold")
+        node, filename = I.SOURCES.funcdef(FD)
+        it.session.note_function(FD)
+        start = [k for k, st in enumerate(node.body) if isinstance(st, ast.Assign) and ast.unparse(st.targets[0]) == "ichannels"]
+        assert len(start) == 1
+        tail = node.body[start[0]:]
+        assert isinstance(tail[-1], ast.Return)
+        env = I.Env(None, FD.__globals__, qualname="detect_bad_channels", filename=filename)
+        env.funcnode = node
+        env.vars.update(dict(nc=SV(nc), xfeats={"xcor_hf": hf, "xcor_lf": lf, "psd_hf": psd}, similarity_threshold=(-0.5, 1), psd_hf_threshold=SV(thr), display=False, fs=30000.0, raw=None))
+        it.ctx.func = env.qualname
+        try:
+            it.exec_block(tail, env)
+            ret = None
+        except I.ReturnEx as r:
+            ret = r.v
+        it.ctx.oblige("detect.returns_labels_and_features", z3.BoolVal(isinstance(ret, tuple) and len(ret) == 2 and isinstance(ret[0], SArr)), "post")
+        lab = ret[0]
+        c = z3.Int("c")
+        inr = z3.And(c >= 0, c < nc)
+        noisy = lambda q: z3.Or(psd.read((q,)) > thr, hf.read((q,)) > 1)            # noqa
+        dead = lambda q: hf.read((q,)) < term(-0.5)                                   # noqa
+        low = lambda q: lf.read((q,)) < term(-0.75)                                   # noqa
+        it.ctx.oblige("detect.shape", z3.And(z3.BoolVal(lab.ndim == 1), A.T(lab.shape[0]) == nc), "post")
+        it.ctx.oblige("detect.noisy_iff", A.forall([c], lambda: z3.Implies(inr, (lab.read((c,)) == 2) == noisy(c))), "post", "noisy: high-frequency power above threshold or similarity above 1; wins over every other label", assume=False)
+        it.ctx.oblige("detect.dead_iff", A.forall([c], lambda: z3.Implies(inr, (lab.read((c,)) == 1) == z3.And(dead(c), z3.Not(noisy(c))))), "post", "dead: detrended similarity below -0.5, unless noisy", assume=False)
+        it.ctx.oblige("detect.outside_only_if", A.forall([c], lambda: z3.Implies(z3.And(inr, lab.read((c,)) == 3), z3.And(low(c), z3.Not(dead(c)), z3.Not(noisy(c)), low(nc - 1)))), "post",
+                      "outside-brain only for channels of the low-coherence set, and only when that set reaches the last channel; loses against dead and noisy", assume=False)
+        if "a" in env.vars and isinstance(env.vars["a"], SArr):
+            # lemma (induction over the cumulative sum, the rule itself is the only thing not left to the solver): the gap counter `a` is non-decreasing
+            # step by step (proved), hence its last element is its maximum
+            av = env.vars["a"]
+            na = A.T(av.shape[0])
+            kq = z3.Int(fresh_name("ka"))
+            it.ctx.oblige("detect.lemma.gap_counter_monotone_step", A.forall([kq], lambda: z3.Implies(z3.And(kq >= 0, kq < na - 1), av.read((kq,)) <= av.read((kq + 1,)))), "lemma",
+                          "a[k] <= a[k+1]: indices returned by np.where increase strictly, so diff - 1 >= 0")
+            k2 = z3.Int(fresh_name("kb"))
+            it.ctx.assume(z3.ForAll([k2], z3.Implies(z3.And(k2 >= 0, k2 < na), av.read((k2,)) <= av.read((na - 1,))), patterns=[av.read((k2,))]))
+        it.ctx.oblige("detect.last_channel_outside", z3.Implies(z3.And(low(nc - 1), z3.Not(dead(nc - 1)), z3.Not(noisy(nc - 1))), lab.read((nc - 1,)) == 3), "post", "a low-coherence last channel that is neither dead nor noisy is outside-brain", assume=False)
+        it.ctx.oblige("detect.label_values", A.forall([c], lambda: z3.Implies(inr, z3.Or(*[lab.read((c,)) == v for v in (0, 1, 2, 3)]))), "post", assume=False)
+    S.explore(body)
